@@ -33,8 +33,8 @@ ASSUMPTIONS = [
     'embedding and the partial trace are the reference\'s own)',
     'SDP/LP answers carry solver tolerance (cvxpy picks SCS with eps=1e-4 for these SDPs): orderings are asserted with 1e-4 absolute '
     'slack; a pair that exceeds it is re-solved with the same numqi SDP at eps=1e-8 and is a violation only if the excess persists; '
-    'SolverError / None / a solve the solver itself flags "inaccurate" is inconclusive, never a violation; CHA LP feasible points are '
-    'compared at 1e-5 (LP feasibility tolerance)',
+    'SolverError / None / a solve the solver itself flags "inaccurate" is inconclusive, never a violation; CHA LP feasible points (weights on the '
+    'simplex, re-summed state on the ray) are compared at the same 1e-4 solver-answer slack',
     'boundaries of the optimiser-driven get_boundary() methods of the inner models are not rigorous bounds and are not compared',
 ]
 TECHNIQUE = ('runtime contracts (postconditions) on the boundary functions with a reference eigensolver/bisection oracle, ghost '
@@ -138,6 +138,10 @@ class Mon:
         self.rho_of_dir = {}     # (direction digest, d) -> first matrix seen with that direction (for high-accuracy re-solves)
         self.refined = {}        # cache of high-accuracy re-solves
         self.n_refined = 0
+
+    def note_max(self, name, value):
+        d = self.ctx.extra.setdefault('worst_solver_residuals', {})
+        d[name] = max(d.get(name, 0.0), float(value))
 
     def note_margin(self, kind, value):
         v = abs(float(value))
@@ -393,12 +397,15 @@ def install(ctx, numqi, mon):
                point='numqi.entangle.symext.get_ABk_symmetric_extension_boundary')
 
     # ---------------------------------------------------------------- is_ABk_symmetric_ext (consumer of the ghost labels)
-    def solver_error_on_rerun(fn):
-        """re-run fn() with cvxpy.Problem.solve instrumented; (result, True if a SolverError was raised inside)."""
+    def solver_error_on_rerun(fn, accurate=False):
+        """re-run fn() with cvxpy.Problem.solve instrumented; (result, True if a SolverError was raised inside).
+        accurate=True additionally asks the solver for 1e-8 instead of its default tolerance."""
         flag = {'err': False}
         orig_solve = cvxpy.Problem.solve
 
         def solve(self, *a, **kw):
+            if accurate and 'solver' not in kw:
+                kw = dict(kw, solver='SCS', eps=1e-8, max_iters=200000)
             try:
                 return orig_solve(self, *a, **kw)
             except SolverError:
@@ -422,9 +429,13 @@ def install(ctx, numqi, mon):
             _, err = solver_error_on_rerun(lambda: f(item, dims, k, use_ppt=use_ppt, use_boson=use_boson))
             if err:
                 return 'symext-feasibility-solver-error'
+            # same numqi SDP, solved to 1e-8 instead of the default first-order tolerance 1e-4
+            r1, err1 = solver_error_on_rerun(lambda: f(item, dims, k, use_ppt=use_ppt, use_boson=use_boson), accurate=True)
+            if not err1 and bool(r1):
+                return 'symext-feasibility-rejection-is-default-solver-tolerance(accepted when re-solved to 1e-8)'
             n = R.bloch_norm(item)
             inner = R.herm(R.ray_point(item, max(n - TOL_ORDER, 0.5 * n)))
-            r2, err2 = solver_error_on_rerun(lambda: f(inner, dims, k, use_ppt=use_ppt, use_boson=use_boson))
+            r2, err2 = solver_error_on_rerun(lambda: f(inner, dims, k, use_ppt=use_ppt, use_boson=use_boson), accurate=True)
         if err2:
             return 'symext-feasibility-solver-error'
         if bool(r2):
@@ -625,18 +636,21 @@ def install(ctx, numqi, mon):
             ctx.check(ok, 'cha/info-shape', 'CHABoundaryBagging.solve(return_info=True) must return matching ketA, ketB, lambda', wit, point=point)
             if not ok:
                 return
-            # LP answer: the weights carry the LP solver's feasibility tolerance (observed |sum-1| up to 1.2e-6 after numqi drops lambda<=0)
-            ctx.check(lam.min() >= 0 and abs(lam.sum() - 1) <= 1e-5 and np.abs(np.linalg.norm(ketA, axis=1) - 1).max() <= 1e-8
+            # LP answer (cvxpy/CLARABEL): weights and the re-summed state carry the LP solver's feasibility tolerance -> DESIGN section 3
+            # solver-answer slack 1e-4 (observed on the unchanged tree: |sum-1| up to 3.4e-5 after numqi drops lambda<=0, on-ray error 9.4e-6)
+            ctx.check(lam.min() >= 0 and abs(lam.sum() - 1) <= TOL_ORDER and np.abs(np.linalg.norm(ketA, axis=1) - 1).max() <= 1e-8
                       and np.abs(np.linalg.norm(ketB, axis=1) - 1).max() <= 1e-8, 'cha/weights-not-on-simplex',
                       'CHA feasible point: weights must be >=0 and sum to 1, product vectors must be unit vectors',
                       lambda: dict(wit, lam_sum=float(lam.sum()), lam_min=float(lam.min())), point=point)
             sigma = R.product_mixture(lam, ketA, ketB)
             target = R.ray_point(dm, beta)
-            ok = ctx.check(np.abs(sigma - target).max() <= 1e-5, 'cha/feasible-point-not-on-ray',
+            mon.note_max('cha |sum(lambda)-1|', abs(lam.sum() - 1))
+            mon.note_max('cha max|sigma-ray(beta)|', np.abs(sigma - target).max())
+            ok = ctx.check(np.abs(sigma - target).max() <= TOL_ORDER, 'cha/feasible-point-not-on-ray',
                            'CHA feasible point: sum_i lambda_i |a_i b_i><a_i b_i| differs from the state at distance beta on the ray of rho',
                            lambda: dict(wit, max_abs_err=float(np.abs(sigma - target).max())), point=point)
             t2 = np.asarray(E._misc.hf_interpolate_dm(dm, beta=beta))
-            ctx.check(t2.shape == sigma.shape and np.abs(sigma - t2).max() <= 1e-5, 'cha/feasible-point!=hf_interpolate_dm',
+            ctx.check(t2.shape == sigma.shape and np.abs(sigma - t2).max() <= TOL_ORDER, 'cha/feasible-point!=hf_interpolate_dm',
                       'CHA feasible point differs from hf_interpolate_dm(rho, beta)', wit, point=point)
             m = R.ppt_margin(sigma, dA, dB)
             ctx.check(m >= -1e-9, 'inner-in-outer/cha-point-not-ppt', 'CHA feasible point (a product mixture) is not PPT by the reference eigensolver',
@@ -1085,9 +1099,21 @@ def run_nest(ctx, numqi, mon, shard):
 
 
 def _drive_inner_state(ctx, drv, mon, dm, dims, kind, k_label, ks, rng, with_ppt):
-    """feed a labelled inner-model state to the outer tests and record it as a point on its own ray."""
+    """feed a labelled inner-model state to the outer tests and record it as a point on its own ray.
+
+    Quick tier: inner-model states sit on the boundary of the sets they are tested against, where the first-order feasibility
+    solver needs 10-60 CPU s per call outside (2,2) (non-bosonic tests of PureBosonicExt states, all tests of nearly pure product
+    mixtures); there the quick tier feeds the state moved 5% towards
+    the maximally mixed state (same label: both sets are convex and contain the maximally mixed state). The thorough tier feeds
+    every state as produced."""
     E = drv.E
     n = R.bloch_norm(dm)
+    contracted = None
+    if ctx.tier == 'quick' and tuple(dims) != (2, 2) and n > 1e-9:
+        lab = mon.labels.get(content_digest(dm))
+        if lab is not None:
+            contracted = R.herm(R.ray_point(dm, 0.95 * n))
+            mon.labels[content_digest(contracted)] = dict(lab, contracted_to=0.95)
     ctx.case('inner-in-outer', kind, dims, k_label, R.direction_digest_source(dm) if n > 1e-9 else 0, nontrivial=n > 1e-6)
     if n <= 1e-9:
         return
@@ -1103,7 +1129,7 @@ def _drive_inner_state(ctx, drv, mon, dm, dims, kind, k_label, ks, rng, with_ppt
                 if cpu_left(ctx) < 0:
                     ctx.inconclusive('budget-exhausted')
                     return
-                drv.is_ext(dm, dims, k, ppt, boson)
+                drv.is_ext(contracted if (contracted is not None and (not boson or kind != 'pureb')) else dm, dims, k, ppt, boson)
     # the boundary of the outer set along the direction of the state must not be shorter than the state's own distance
     k = ks[-1]
     drv.boundary(dm, dims, k, bool(with_ppt and rng.integers(2)), bool(rng.integers(2)))
